@@ -19,8 +19,28 @@ import JPV.Impl.Api
 import JPV.Props.C02
 import JPV.Props.C05
 import JPV.Proofs.LexTotal
+import JPV.Proofs.ParseTotal
 namespace JPV.Props
 open JPV JPV.Impl
+
+/-- compile() is total: for every environment (any function registry, any limits) and every string of
+Unicode scalar values, the model of compile() returns a query or raises a JSONPathError — never
+another exception (`ErrKind.py`), and it never runs out of the lexer's or the parser's fuel
+(termination: the lexer's potential 3*(n-pos)+rank and the parser's 4*live-tokens+c both decrease). -/
+def C13_compile_statement : Prop :=
+  ∀ (env : Env) (s : Str), match Impl.compile env s with
+    | .ok _ => True
+    | .error e => e.kind.isJSONPathError = true
+
+theorem C13_compile : C13_compile_statement := by
+  intro env s
+  cases h : Impl.compile env s with
+  | ok q => trivial
+  | error e =>
+    show e.kind.isJSONPathError = true
+    rcases Proofs.compile_no_py env s e h with hf | hj
+    · exact absurd hf (Proofs.compile_no_fuel env s e h)
+    · exact hj
 
 /-- The lexer is total: for every string, `tokenize` returns tokens or a JSONPathError
 (in particular the state machine stops within its fuel: every state function
